@@ -116,34 +116,112 @@ theorem move_debit_guard (m : Move) (sender : Addr) (issuer : Option Addr) (x : 
       simp only [List.mem_singleton] at hp; subst hp
       cases p <;> simp [Prim.isAdmin] at ha <;> simp [Prim.balDelta]
     · cases hp
+  | bancor a sell sellAmt buy buyAmt bip =>
+    simp only [Move.debitOk, beq_iff_eq] at hg
+    have hax : ¬ (a = x) := fun e => hx (e ▸ hg)
+    simp only [Move.prims, List.mem_append] at hp
+    rcases hp with hp | hp <;> split at hp
+    · rw [List.mem_singleton] at hp; subst hp; simp only [Prim.balDelta]; split <;> (first | omega | (next hh => exact absurd hh.1 hax))
+    · simp only [List.mem_cons, List.mem_nil_iff, or_false] at hp
+      rcases hp with hq | hq | hq <;> subst hq <;> simp only [Prim.balDelta] <;> (try split) <;> (first | omega | (next hh => exact absurd hh.1 hax))
+    · rw [List.mem_singleton] at hp; subst hp; simp only [Prim.balDelta]; split <;> (first | omega | (next hh => exact absurd hh.1 hax))
+    · simp only [List.mem_cons, List.mem_nil_iff, or_false] at hp
+      rcases hp with hq | hq | hq <;> subst hq <;> simp only [Prim.balDelta] <;> (try split) <;> (first | omega | (next hh => exact absurd hh.1 hax))
+  | delegate a cand coin value wl =>
+    simp only [Move.debitOk, beq_iff_eq] at hg
+    have hax : ¬ (a = x) := fun e => hx (e ▸ hg)
+    cases wl <;> simp only [Move.prims, List.mem_cons, List.mem_nil_iff, or_false] at hp
+    · rcases hp with hq | hq <;> subst hq <;> simp only [Prim.balDelta] <;> (try split) <;> (first | omega | (next hh => exact absurd hh.1 hax))
+    · rcases hp with hq | hq | hq <;> subst hq <;> simp only [Prim.balDelta] <;> (try split) <;> (first | omega | (next hh => exact absurd hh.1 hax))
+  | unbond a stakeCand coin value wl f =>
+    cases wl with
+    | none =>
+      simp only [Move.prims, List.mem_cons, List.mem_nil_iff, or_false] at hp
+      rcases hp with hq | hq <;> subst hq <;> simp only [Prim.balDelta] <;> omega
+    | some w =>
+      simp only [Move.prims] at hp
+      split at hp
+      · simp only [List.mem_cons, List.mem_nil_iff, or_false] at hp; rcases hp with hq | hq | hq <;> subst hq <;> simp only [Prim.balDelta] <;> omega
+      · split at hp
+        · simp only [List.mem_cons, List.mem_nil_iff, or_false] at hp; rcases hp with hq | hq | hq <;> subst hq <;> simp only [Prim.balDelta] <;> omega
+        · simp only [List.mem_cons, List.mem_nil_iff, or_false] at hp; rcases hp with hq | hq <;> subst hq <;> simp only [Prim.balDelta] <;> omega
+  | lock a f =>
+    simp only [Move.debitOk, Bool.and_eq_true, beq_iff_eq, decide_eq_true_eq] at hg
+    have hax : ¬ (a = x) := fun e => hx (e ▸ hg.1)
+    simp only [Move.prims, List.mem_cons, List.mem_nil_iff, or_false] at hp
+    rcases hp with hq | hq <;> subst hq <;> simp only [Prim.balDelta] <;> (try split) <;> (first | omega | (next hh => exact absurd hh.1 hax))
+  | declare a cd coin stake =>
+    simp only [Move.debitOk, beq_iff_eq] at hg
+    have hax : ¬ (a = x) := fun e => hx (e ▸ hg)
+    simp only [Move.prims, List.mem_cons, List.mem_nil_iff, or_false] at hp
+    rcases hp with hq | hq | hq <;> subst hq <;> simp only [Prim.balDelta] <;> (try split) <;> (first | omega | (next hh => exact absurd hh.1 hax))
+  | poolCreate a pl lp =>
+    simp only [Move.debitOk, Bool.and_eq_true, beq_iff_eq, decide_eq_true_eq] at hg
+    have hax : ¬ (a = x) := fun e => hx (e ▸ hg.1)
+    simp only [Move.prims] at hp; split at hp
+    · cases hp
+    · simp only [List.mem_cons, List.mem_nil_iff, or_false] at hp
+      rcases hp with hq | hq | hq | hq | hq | hq <;> subst hq <;> simp only [Prim.balDelta, minLiquidity] <;> (try split) <;> (first | omega | (next hh => exact absurd hh.1 hax))
+  | poolMint a c0 c1 a0 a1 lp liq =>
+    simp only [Move.debitOk, beq_iff_eq] at hg
+    have hax : ¬ (a = x) := fun e => hx (e ▸ hg)
+    simp only [Move.prims] at hp; split at hp
+    · cases hp
+    · simp only [List.mem_cons, List.mem_nil_iff, or_false] at hp
+      rcases hp with hq | hq | hq | hq | hq <;> subst hq <;> simp only [Prim.balDelta] <;> (try split) <;> (first | omega | (next hh => exact absurd hh.1 hax))
+  | poolBurn a c0 c1 a0 a1 lp liq =>
+    simp only [Move.debitOk, beq_iff_eq] at hg
+    have hax : ¬ (a = x) := fun e => hx (e ▸ hg)
+    simp only [Move.prims] at hp; split at hp
+    · cases hp
+    · simp only [List.mem_cons, List.mem_nil_iff, or_false] at hp
+      rcases hp with hq | hq | hq | hq | hq <;> subst hq <;> simp only [Prim.balDelta] <;> (try split) <;> (first | omega | (next hh => exact absurd hh.1 hax))
+  | orderAdd a o =>
+    simp only [Move.debitOk, Bool.and_eq_true, beq_iff_eq] at hg
+    have hax : ¬ (a = x) := fun e => hx (e ▸ hg.1)
+    simp only [Move.prims, List.mem_cons, List.mem_nil_iff, or_false] at hp
+    rcases hp with hq | hq <;> subst hq <;> simp only [Prim.balDelta] <;> (try split) <;> (first | omega | (next hh => exact absurd hh.1 hax))
+  | orderRemove a o =>
+    simp only [Move.debitOk, Bool.and_eq_true, beq_iff_eq] at hg
+    have hax : ¬ (a = x) := fun e => hx (e ▸ hg.1)
+    simp only [Move.prims, List.mem_cons, List.mem_nil_iff, or_false] at hp
+    rcases hp with hq | hq <;> subst hq <;> simp only [Prim.balDelta] <;> (try split) <;> (first | omega | (next hh => exact absurd hh.1 hax))
 
 end Minter
 
 namespace Minter
 
-/-- Every move of any DeliverTx outcome passes the debit guard for the transaction's sender. -/
+/-- Every move of any DeliverTx outcome passes the debit guard for the transaction's sender (and, for a check redemption,
+    the issuer of the check). -/
 theorem deliver_moves_guarded (P : Params) (o : Oracle) (s : State) (b : Nat) (t : TxIn) (out : Outcome)
-    (h : deliverTx P o s b t = .ok out) : out.moves.all (Move.debitOk t.sender none) = true := by
+    (h : deliverTx P o s b t = .ok out) : out.moves.all (Move.debitOk t.sender t.issuer) = true := by
   unfold deliverTx at h
   split at h
   · cases h; rfl
   · rcases deliverBody_shape P o s b t out h with hr | ⟨r, hs⟩
     · exact hr.2.2
-    · obtain ⟨_, _, hm, hg⟩ := successOutcome_ok s t r out hs
+    · obtain ⟨burn, _, _, _, hm, hg⟩ := successOutcome_ok s t r out hs
       rw [hm]; exact hg
 
 /-- **C05 (balances).** A delivered transaction — accepted or rejected — never lowers the balance, in any coin, of an
-    account other than its sender; and it is only executed beyond the prologue when the signature(s) recovered to the
+    account other than its sender and, for a check redemption, the issuer who signed the check (`TxIn.issuer`: the address
+    recovered from the check's own signature); and it is only executed beyond the prologue when the signature(s) recovered to the
     sender (single signature) or to distinct owners of the multisig sender whose weights reach the threshold. -/
 theorem C05_balance_only_sender (P : Params) (o : Oracle) (s s' : State) (b : Nat) (t : TxIn) (out : Outcome)
     (h : deliverTx P o s b t = .ok out) (ha : applyChecked s out.plan = some s')
-    (x : Addr) (hx : x ≠ t.sender) (c : Coin) : balanceOf s x c ≤ balanceOf s' x c := by
+    (x : Addr) (hx : x ≠ t.sender) (hi : t.issuer ≠ some x) (c : Coin) : balanceOf s x c ≤ balanceOf s' x c := by
   have hg := deliver_moves_guarded P o s b t out h
   apply checked_balance_mono s s' out.plan x c _ ha
   intro p hp
   simp only [Outcome.plan, planOf, List.mem_flatMap] at hp
   obtain ⟨m, hm, hpm⟩ := hp
-  exact move_debit_guard m t.sender none x c (List.all_eq_true.mp hg m hm) hx (by simp) p hpm
+  exact move_debit_guard m t.sender t.issuer x c (List.all_eq_true.mp hg m hm) hx hi p hpm
+
+/-- Only a check redemption has an issuer: for every other type the sender is the only account that can be debited. -/
+theorem issuer_none_of_not_redeem (t : TxIn) (h : t.typ ≠ 9) : t.issuer = none := by
+  unfold TxIn.issuer
+  have : (t.typ == 9) = false := by simpa using h
+  simp [this]
 
 theorem C05_moves_need_authorization (P : Params) (o : Oracle) (s : State) (b : Nat) (t : TxIn) (out : Outcome)
     (h : deliverTx P o s b t = .ok out) (hm : out.moves ≠ []) :
